@@ -184,14 +184,31 @@ BufIds(m) ==
     \cup (IF m.a = "/b_gen" /\ m.g[2].s = "copy" THEN {m.g[4].i} ELSE {}) \cup NestedOf(m, BufIds)
 RECURSIVE CountedStarts(_, _)
 CountedStarts(g, p) == IF p + 1 > Len(g) THEN {} ELSE {g[p].i + d : d \in 0 .. (g[p + 1].i - 1)} \cup CountedStarts(g, p + 2 + g[p + 1].i)
+\* bus indexes named by a message.  Control buses: the /c_ commands, /n_map, /n_mapn and map symbols "c<index>" used as
+\* control values; audio buses: /n_mapa, /n_mapan and "a<index>".  -1 (= unmap) names nothing.  The projection of the
+\* recorded datagrams adds to every message mp = <<[k |-> "c" | "a", i |-> index], ...>> for its string arguments of
+\* that form (strings cannot be taken apart in TLA+); messages the spec builds itself carry no mp.
+Ranges(g, from, k) == UNION {IF g[p].i = 0 - 1 THEN {} ELSE {g[p].i + d : d \in 0 .. (g[p + 1].i - 1)} :
+                              p \in {q \in from .. Len(g) : (q - from) % k = 0}}
+RECURSIVE MapSyms(_, _)
+MapSyms(m, kind) ==
+    (IF "mp" \in DOMAIN m /\ m.a \in {"/n_set", "/s_new"}
+     THEN {m.mp[j].i : j \in {q \in 1 .. Len(m.mp) : m.mp[q].k = kind}} ELSE {})
+    \cup UNION {MapSyms(m.b[k], kind) : k \in 1 .. Len(m.b)}
 BusIds(m) ==
     LET g == m.g IN
-    CASE m.a = "/c_set" -> Every(g, 1, 2)
-      [] m.a = "/c_get" -> {g[k].i : k \in 1 .. Len(g)}
-      [] m.a = "/c_setn" -> CountedStarts(g, 1)
-      [] m.a = "/c_fill" -> UNION {{g[p].i + d : d \in 0 .. (g[p + 1].i - 1)} : p \in {q \in 1 .. Len(g) : (q - 1) % 3 = 0}}
-      [] m.a = "/c_getn" -> UNION {{g[p].i + d : d \in 0 .. (g[p + 1].i - 1)} : p \in {q \in 1 .. Len(g) : (q - 1) % 2 = 0}}
-      [] OTHER -> {}
+    (CASE m.a = "/c_set" -> Every(g, 1, 2)
+       [] m.a = "/c_get" -> {g[k].i : k \in 1 .. Len(g)}
+       [] m.a = "/c_setn" -> CountedStarts(g, 1)
+       [] m.a = "/c_fill" -> Ranges(g, 1, 3)
+       [] m.a = "/c_getn" -> Ranges(g, 1, 2)
+       [] m.a = "/n_map" -> Every(g, 3, 2) \ {0 - 1}
+       [] m.a = "/n_mapn" -> Ranges(g, 3, 3)
+       [] OTHER -> {}) \cup MapSyms(m, "c")
+AudioBusIds(m) ==
+    (CASE m.a = "/n_mapa" -> Every(m.g, 3, 2) \ {0 - 1}
+       [] m.a = "/n_mapan" -> Ranges(m.g, 3, 3)
+       [] OTHER -> {}) \cup MapSyms(m, "a")
 
 (* ------------------------------------------------------------------ Part 2: client state *)
 \* add actions: the names the API accepts and the numbers of the reference
@@ -212,6 +229,7 @@ AbPart(cfg) == A!ClientCfg(cfg.nab - cfg.io, cfg.logins, 0, cfg.io, cfg.client)
 KnownNodes(st) == st.nodes \cup {0, st.cfg.defgroup, 0 - 1} \cup {st.cfg.groups[k] : k \in 1 .. Len(st.cfg.groups)}
 KnownBufs(st) == A!Occ(st.buf)
 KnownBuses(st) == A!Occ(st.cb)
+KnownAudioBuses(st) == A!Occ(st.ab) \cup (0 .. (st.cfg.io - 1))      \* private buses held + the hardware channels
 
 \* --- argument trees: [k, i, s, c]; k = "i" "f" "s" | "l" (list) "d" (dict: c = key, value, ...) |
 \*     "obj" (a Bus / Buffer / Node object, i = handle) | "map" (bus.as_map(), i = handle)
@@ -251,6 +269,12 @@ RefsOf(xs) == IF xs = <<>> THEN {}
 RefersToNothing(st, e) ==
     \E h \in ({e.h} \cup (IF e.tk = "obj" THEN {e.t} ELSE {}) \cup RefsOf(e.a)) \ {0} :
         h > Len(st.obj) \/ st.obj[h].kind = "none"
+\* a freed bus names nothing: its as_map() is refused (BusException 'bus not allocated'), and so must be the bus object
+\* itself when it is handed to a node command as an argument
+RECURSIVE KindRefs(_, _)
+KindRefs(xs, kind) == IF xs = <<>> THEN {}
+    ELSE (IF xs[1].k = kind THEN {xs[1].i} ELSE {}) \cup KindRefs(xs[1].c, kind) \cup KindRefs(Tail(xs), kind)
+DeadBus(st, h) == h \in 1 .. Len(st.obj) /\ st.obj[h].kind \in {"cbus", "abus"} /\ ~st.obj[h].alive
 MakingOps == {"synth", "paused", "replace", "group", "basic", "buffer", "buffer_noalloc", "consecutive", "cbus", "abus"}
 One(m) == <<Ev("msg", NOTIME, <<m>>)>>
 R(st, em, exc) == [st |-> st, em |-> em, exc |-> exc]      \* next state, expected wire events, expected exception class
@@ -268,6 +292,10 @@ Apply(st, e) ==
         new == IF Len(e.ids) >= 1 THEN e.ids[1] ELSE 0 - 2 IN
     CASE RefersToNothing(st, e) ->       \* the drivers do not call with an object that was never made
             R(IF e.op \in MakingOps THEN AddObj(st, Obj("none", 0, 0, FALSE)) ELSE st, <<>>, "NoObject")
+      [] \E h \in KindRefs(e.a, "map") : DeadBus(st, h) ->
+            R(IF e.op \in MakingOps THEN AddObj(st, Obj("none", 0, 0, FALSE)) ELSE st, <<>>, "BusException")
+      [] \E h \in KindRefs(e.a, "obj") : DeadBus(st, h) ->
+            R(IF e.op \in MakingOps THEN AddObj(st, Obj("none", 0, 0, FALSE)) ELSE st, <<>>, "FreedBus")
       [] e.exc = "NoSpace" /\ e.op \in {"buffer", "buffer_noalloc", "consecutive", "cbus", "abus"} ->
             R(AddObj(st, Obj("none", 0, 0, FALSE)), <<>>, "NoSpace")       \* refused: justified or not is AllocOk's business
       [] e.op = "synth" ->
@@ -443,19 +471,24 @@ OnlyKnownIds(st2, st, ms) ==       \* st2: state after the call (ids created by 
     \A m \in ms : /\ NodeIds(m) \subseteq KnownNodes(st2)
                   /\ BufIds(m) \subseteq KnownBufs(st2) \cup KnownBufs(st)
                   /\ BusIds(m) \subseteq KnownBuses(st2) \cup KnownBuses(st)
+                  /\ AudioBusIds(m) \subseteq KnownAudioBuses(st2) \cup KnownAudioBuses(st)
 CreationCmds == {"/s_new", "/g_new", "/p_new"}
 \* a bundle without elements carries no command: it is not counted as output
 Norm(em) == SelectSeq(em, LAMBDA w : w.m # <<>>)
+StripMsg(m) == [a |-> m.a, g |-> m.g, b |-> [k \in 1 .. Len(m.b) |-> [a |-> m.b[k].a, g |-> m.b[k].g, b |-> <<>>]]]
+Strip(em) == [k \in 1 .. Len(em) |-> [k |-> em[k].k, t |-> em[k].t, m |-> [j \in 1 .. Len(em[k].m) |-> StripMsg(em[k].m[j])]]]
+\* the library refuses a freed bus object with the same exception class as a freed bus's as_map()
+ExcOk(got, want) == got = want \/ (want = "FreedBus" /\ got = "BusException")
 Why(st, e0) ==
-    LET e == [e0 EXCEPT !.em = Norm(@)]
+    LET e == [e0 EXCEPT !.em = Strip(Norm(@))]
         x == Step(st, e)
-        ms == AllMsgs(e.em) IN
-    IF e.exc # x.exc THEN (IF e.exc = "" THEN "NotRefused" ELSE "raised")
+        ms == AllMsgs(Norm(e0.em)) IN          \* with the map-symbol projection, for the id clauses
+    IF ~ExcOk(e.exc, x.exc) THEN (IF e.exc = "" THEN "NotRefused:" \o x.exc ELSE "raised")
     ELSE IF e.exc # "NoObject" /\ ~AllocOk(st, e) THEN "IdNotFromAllocator"
     ELSE IF e.exc # "" THEN (IF e.em = <<>> THEN "ok" ELSE "EmittedAlthoughRefused")
     ELSE IF ~NodeFresh(st, e) THEN "NodeIdRange"
     ELSE IF e.op \in {"b_free", "bus_free"} /\ ~st.inbind /\ e.em # x.em THEN "FreeOncePerOwnedId"
-    ELSE IF \E m \in ms : ~WellTyped(m) THEN "WellTyped"
+    ELSE IF \E m \in ms : ~WellTyped(StripMsg(m)) THEN "WellTyped"
     \* (the ids inside a block's bundle were known when the calls were issued; the bundle is compared below)
     ELSE IF e.op \notin {"bind_exit", "sync"} /\ ~OnlyKnownIds(x.st, st, ms) THEN "OnlyKnownIds"
     ELSE IF e.op = "sync" /\ e.em # x.em THEN (IF st.inbind THEN "BindSplitAtSync" ELSE "Sync")
